@@ -190,6 +190,12 @@ impl Builder {
 
             let f = f.clone();
 
+            #[cfg(loom_verif)]
+            let verif_guard = rt::verif::IterGuard {
+                path: &execution.path as *const _,
+                index: i,
+            };
+
             scheduler.run(&mut execution, move || {
                 f();
 
@@ -202,6 +208,12 @@ impl Builder {
             });
 
             execution.check_for_leaks();
+
+            #[cfg(loom_verif)]
+            {
+                std::mem::forget(verif_guard);
+                rt::verif::record(&execution.path, i, false);
+            }
 
             i += 1;
 
